@@ -105,6 +105,12 @@ class Harness:
         if url in self.model: self.model[url]['level'] = level
         self.check_view('update_one(%r, level=%r)' % (url, level))
 
+    def update_status(self, url, status):
+        # update_one is the generic column writer: it can set the status too (a plugin or a resumed session does), and check_out must see that
+        self.table.update_one(url, status=status.value)
+        if url in self.model: self.model[url]['status'] = status
+        self.check_view('update_one(%r, status=%s)' % (url, status.name))
+
     def release(self):
         self.table.release()
         for m in self.model.values():
@@ -145,6 +151,7 @@ def apply(h, op):
     elif k == 'release': h.release()
     elif k == 'remove': h.remove(op[1])
     elif k == 'update': h.update(op[1], op[2])
+    elif k == 'upstat': h.update_status(op[1], op[2])
     elif k == 'reopen': h.reopen()
     elif k == 'lookup': h.lookups(op[1])
 
@@ -167,6 +174,14 @@ def run_sequence(seq, path, wrap, bad, label):
         except Exception: pass
 
 
+def _run_chunk(chunk):
+    out = []
+    for seq, wrap, label in chunk:
+        if len(out) > 8: break
+        run_sequence(seq, ':memory:', wrap, out, label)
+    return out
+
+
 def main():
     ap = argparse.ArgumentParser(); ap.add_argument('--tier', default='quick'); ap.add_argument('--seed', default='1'); ap.add_argument('--out', default=None)
     a = ap.parse_args(); t0 = time.time(); rnd = random.Random(int(a.seed) if str(a.seed).isdigit() else 1)
@@ -175,12 +190,25 @@ def main():
     alpha = ops_alphabet(URLS)
     tmpdir = tempfile.mkdtemp(prefix='c14-')
     try:
-        # exhaustive short sequences (in memory; every operation first made meaningful by a seeding add)
+        # exhaustive short sequences (in memory; every operation first made meaningful by a seeding add), and exhaustive short sequences from a POPULATED table
+        # (three URLs queued) over the operations that read or write the status: histories such as "check_out finds nothing with status S; a row gets status S;
+        # check_out(S)" need a row that already exists.  Run on all cores (fork pool; every sequence opens its own in-memory table).
+        u0, u1, u2 = URLS[0], URLS[1], URLS[2]
+        status_ops = [('out', Status.todo, None), ('out', Status.error, None), ('out', Status.done, None), ('out', Status.todo, 1), ('in', u0, Status.done, True), ('in', u1, Status.error, False),
+                      ('release',), ('update', u1, 5), ('upstat', u1, Status.error), ('upstat', u0, Status.todo), ('upstat', u2, Status.done), ('remove', [u0])]
+        jobs = []
         for L in range(1, maxlen + 1):
-            for seq in itertools.product([o for o in alpha if o[0] != 'reopen'], repeat=L):
-                n += 1; run_sequence(list(seq), ':memory:', n % 2 == 0, bad, 'exhaustive length %d' % L)
-                if len(bad) > 30: break
-            if len(bad) > 30: break
+            for seq in itertools.product([o for o in alpha if o[0] != 'reopen'], repeat=L): jobs.append((list(seq), len(jobs) % 2 == 0, 'exhaustive length %d' % L))
+        for L in range(1, 4):
+            for seq in itertools.product(status_ops, repeat=L): jobs.append(([('add', [u0, u1, u2], 0)] + list(seq), len(jobs) % 2 == 0, 'populated table, exhaustive length %d' % L))
+        n += len(jobs)
+        import multiprocessing
+        chunks = [jobs[i::64] for i in range(64)]
+        with multiprocessing.get_context('fork').Pool(min(16, os.cpu_count() or 2)) as pool:
+            for part in pool.imap_unordered(_run_chunk, chunks):
+                bad += part
+        bad.sort(key=lambda b: (b['where'], len(b['sequence'])))
+        del bad[31:]
         # seeded random long sequences, on disk with reopen
         for k in range(60 if a.tier == 'quick' else 600):
             urls = rnd.sample(URLS, 3) + rnd.sample(URLS, 3)
@@ -193,7 +221,8 @@ def main():
                 elif r < 0.7: seq.append(('in', rnd.choice(URLS), rnd.choice([Status.done, Status.error, Status.skipped, Status.todo]), rnd.random() < 0.5))
                 elif r < 0.78: seq.append(('release',))
                 elif r < 0.86: seq.append(('remove', [rnd.choice(URLS) for _ in range(rnd.randrange(1, 3))]))
-                elif r < 0.92: seq.append(('update', rnd.choice(URLS), rnd.randrange(0, 9)))
+                elif r < 0.90: seq.append(('update', rnd.choice(URLS), rnd.randrange(0, 9)))
+                elif r < 0.93: seq.append(('upstat', rnd.choice(URLS), rnd.choice([Status.todo, Status.error, Status.done])))
                 elif r < 0.97: seq.append(('reopen',))
                 else: seq.append(('lookup', rnd.choice(URLS)))
             path = os.path.join(tmpdir, 't%d.db' % k)
